@@ -16,14 +16,38 @@ PROPS = {
         "modelled": COMMON_MODELLED,
         "assumptions": ["no push policy installed (C14 covers policies)", "lengths < 2^62, ints are 64-bit"],
     },
+    "C07": {
+        "lean": ["Stackage.Props.C07"],
+        "streams": [{"name": "paths", "quick": 3000, "thorough": 60000}],
+        "rule": "random trees (depth <= 3 quick / 4 thorough, width <= 4; nested stacks as native / alias / alias-with-String / pointer, Conditions with stack and "
+                "non-stack expressions, nil slots, zero-valued Stack elements, per-node negative/forward index options) x 1-6 paths each of length 0..depth+2 with "
+                "indices from [-1,5] plus MinInt/MaxInt; the value (structurally described) and the flag compared; non-trivial = some path has >= 2 indices",
+        "modelled": COMMON_MODELLED,
+        "assumptions": ["a Condition alias at the end of a path comes back as the native handle of the same instance (treated as the same value)",
+                        "no validity policy on the nodes of the generated trees (the theorem covers them through `Stk.valid`)"],
+    },
     "C08": {
         "lean": ["Stackage.Props.C08"],
-        "streams": [{"name": "histx", "quick": 3000, "thorough": 60000}],
+        "streams": [{"name": "histx", "quick": 3000, "thorough": 60000}, {"name": "awk", "quick": 2000, "thorough": 40000}],
         "rule": "histories of the content mutators whose int arguments are drawn from {MinInt, MinInt+1, -Len-1..Len+1, MaxInt} on stacks of "
                 "length 0..4, all four index-option combinations, every kind; after each call Len/Index*/Front/Back/Cap/Avail are re-read; "
-                "non-trivial = at least 3 operations of at least 2 kinds",
+                "non-trivial = at least 3 operations of at least 2 kinds; stream awk: Push / Insert / Replace / IsEqual / Transfer / ConvertStack / "
+                "ConvertCondition / Cond(expression) fed with typed nil pointers of depth 1-2 (incl. nil *Alias, *Stack, *Condition, **int), nil maps / funcs / chans / "
+                "slices, structs with unexported fields (by value and by pointer), funcs, chans, maps, arrays, errors, zero-valued Stacks / Conditions / aliases, "
+                "followed by String / Unmarshal / IsEqual / Transfer / Reveal / Defrag / Traverse on the stack holding them",
         "modelled": COMMON_MODELLED,
-        "assumptions": ["lengths < 2^62, ints are 64-bit"],
+        "assumptions": ["lengths < 2^62, ints are 64-bit", "IsEqual / Defrag / Reveal totality over the value universe is proved with their own models (C05, C19, C20); here they are exercised for panics only"],
+    },
+    "C02": {
+        "lean": ["Stackage.Props.C02"],
+        "streams": [{"name": "render", "quick": 4000, "thorough": 80000}, {"name": "strunit", "quick": 1000, "thorough": 20000}],
+        "rule": "random expression trees (depth <= 3 quick / 5 thorough, width <= 4) of AND/OR/NOT/LIST/BASIC stacks and Conditions with independent "
+                "per-node paren / fold / no-padding / lead-once / symbol (incl. multi-byte) / delimiter (incl. blank, multi-byte) / 0-2 encapsulation "
+                "pairs; leaves: ASCII, multi-byte, embedded / leading / trailing blanks and tabs, NBSP, newline, empty, ints, bools, floats, stringers; "
+                "String() compared byte for byte with the model and with the canonical grammar; a unit stream drives condenseWHSP / padValue / foldValue / "
+                "encapValue directly; non-trivial = the tree has at least 2 elements or a nested node",
+        "modelled": COMMON_MODELLED + ["strings as valid Unicode (List Char); the Go code works on bytes, and UTF-8 never contains bytes 9 or 32 inside a multi-byte sequence"],
+        "assumptions": ["no presentation / validity closures on nested nodes (C14 covers closures)", "C02_verbatim needs blank-free encapsulation strings (blanks inside them are condensed like any others)"],
     },
     "C03": {
         "lean": ["Stackage.Props.C03"],
@@ -33,6 +57,47 @@ PROPS = {
                 "non-trivial = at least 3 operations of at least 2 kinds",
         "modelled": COMMON_MODELLED,
         "assumptions": ["Marshal-into is covered through Push (C16 check exercises Marshal into initialised receivers)"],
+    },
+    "C09": {
+        "lean": ["Stackage.Props.C09"],
+        "streams": [{"name": "frozen", "quick": 4000, "thorough": 80000}],
+        "rule": "every exported method of Stack and Condition, enumerated by reflection (a method whose parameter types the sweep does not know makes it refuse to run), "
+                "invoked with arguments generated from its parameter types (ints incl. MinInt/MaxInt, strings, tri-state booleans, values incl. stacks / conditions / awkward "
+                "values, errors, operators, closures, auxiliary maps) singly and in sequences of 1-4 on read-only instances of every kind and content (nested trees, capacity, "
+                "mutex); the deep dump (VerifDump of the instance and of every nested Stack / Condition: content, every config field, closure / logger / aux identities) is "
+                "compared before and after every call; Free must report an error; finally SetReadOnly(false) must give back exactly the initial state and Push must work again",
+        "modelled": COMMON_MODELLED + ["method bodies inside the guards are arbitrary in the skeleton theorems; the guards themselves are tied to the source by the regenerated facts"],
+        "assumptions": ["SetID(\"_random\") is not generated (non-deterministic); it is behind the same guard as SetID(fixed)"],
+    },
+    "C11": {
+        "lean": ["Stackage.Props.C11"],
+        "streams": [{"name": "queries", "quick": 4000, "thorough": 80000}],
+        "rule": "every exported method not on the declared mutator list (enumerated by reflection) x random trees and configurations (mutex-enabled and read-only ones included): "
+                "deep dump before / after / after a repetition, same answer when repeated, tampering with the Unmarshal slice; plus (both tiers) all queries from 16 goroutines in "
+                "parallel under the race detector, each answer compared with the sequential one",
+        "modelled": COMMON_MODELLED,
+        "assumptions": ["user closures are pure", "race-freedom is a runtime fact: the race detector run is supporting evidence, the proof covers write-freedom of the query call graph (partial, DESIGN §8)"],
+        "level_text": "proof (partial): Lean theorems over the guard skeleton + decide-checked facts regenerated from the source (no query reaches a write or a lock); data-race freedom "
+                      "itself is not expressible in the model and is supported by a -race run of all queries from 16 goroutines",
+    },
+    "C17": {
+        "lean": ["Stackage.Props.C17"],
+        "streams": [{"name": "inert", "quick": 4000, "thorough": 80000}],
+        "rule": "every exported method of Stack and Condition (reflection) x generated arguments x receiver states {zero value, freed}; the result must be the zero result of the "
+                "Lean table and the receiver must stay uninitialised; sequences of 1-4 calls",
+        "modelled": COMMON_MODELLED,
+        "assumptions": ["the documented sentinels (ID \"unspecified\", Kind \"<invalid_stack>\", Addr \"0x0\", IsEmpty/IsPadded/IsZero true) are pinned as zero results",
+                        "package-level functions and Auxiliary methods are exercised by the C08 / C18 streams"],
+    },
+    "C12": {
+        "lean": ["Stackage.Props.C12"],
+        "streams": [{"name": "alias", "quick": 3000, "thorough": 60000}],
+        "rule": "random trees (depth 1-2 quick, 1-4 thorough) in which every nested Stack and every Condition (also as a Condition's expression) is independently "
+                "native / alias / alias with its own String / non-nil pointer to alias; the alias tree and its all-native twin are both built with the real code and "
+                "observed: String, Unmarshal, IsNesting, Traverse over 9 paths, Condition.Len/IsNesting, no-nesting Push count, Transfer, IsEqual in both directions, "
+                "ConvertStack/ConvertCondition per element; the two observations must coincide and equal the model's",
+        "modelled": COMMON_MODELLED,
+        "assumptions": ["IsEqual across forms is compared on the implementation only until the equality model (C05) is merged; Defrag across forms is covered by C19"],
     },
     "C13": {
         "lean": ["Stackage.Props.C13"],
@@ -78,6 +143,99 @@ PROPS = {
         "explanation": "S line: inside the domain the verdict of the independent specification sameDesc; outside it the specification only demands 'no panic' and the line "
                        "repeats the model's verdict. Known findings K-C05-1 (mixed-visibility embedded fields panic) and K-C05-2 (a one-private-field struct equals any "
                        "Stack/Condition on its right) are residual defects of the repaired code, tagged by the driver (C05.MixedEmbedded / C05.HandleLike).",
+    },
+    "C04": {
+        "lean": ["Stackage.Props.C04"],
+        "streams": [{"name": "roundtrip", "quick": 3000, "thorough": 60000}],
+        "rule": "random trees (depth <= 3 quick / 5 thorough) of AND/OR/NOT/LIST/BASIC stacks (empty ones, folded labels, capacities included), Conditions whose "
+                "expression is a primitive, a Stack or a Condition, primitive and nil leaves (also leaves equal to label words); Unmarshal, then Marshal into a zero Stack "
+                "through both calling conventions (Marshal(u...) and Marshal(u)); compared: the unmarshalled slice, the reconstructed tree, the fixpoint (Unmarshal again, "
+                "labels case-insensitively) and IsEqual(original, reconstruction) where no capacity / case-folding is involved; non-trivial = tree with a nested node",
+        "modelled": COMMON_MODELLED,
+        "assumptions": ["no custom marshaler / unmarshaler closures (C14)", "IsEqual between original and reconstruction is checked on the implementation; its model-side theorem follows the C05 merge"],
+    },
+    "C16": {
+        "lean": ["Stackage.Props.C16"],
+        "streams": [{"name": "anytrees", "quick": 4000, "thorough": 80000}],
+        "rule": "random []any trees (depth <= 3 quick / 5 thorough): labels in any case (incl. dotless-i / long-s spellings), junk and empty strings, numbers, nil, typed nil, "
+                "operators (valid, ComparisonOperator(0), user-defined, empty text, nil), ready-made Stacks / aliases / Conditions, zero-valued instances, funcs, maps, "
+                "CONDITION rows with 0-6 fields and wrong types, empty and nested single-element envelopes; receivers: zero Stack, initialised Stack, initialised Stack "
+                "with capacity; compared: error or not, receiver initialised or not, the decoded tree, and that String / Unmarshal / IsEqual then return normally",
+        "modelled": COMMON_MODELLED,
+        "assumptions": ["totality of the Lean definitions carries 'never panics'; the stream ties it to the code"],
+    },
+    "C06": {
+        "lean": ["Stackage.Props.C06"],
+        "streams": [{"name": "condhist", "quick": 4000, "thorough": 80000}],
+        "rule": "setter histories (<= 8 quick, <= 14 thorough) over accepted and rejected arguments: nil / empty / user-defined / out-of-range operators, "
+                "nil / empty / stack (native, alias, pointer) / stringer / typed-nil / condition expressions, string / stringer / other keywords, "
+                "x {no-nesting, no-padding, parenthetical, encapsulation, read-only, pre-set Err}, starting from Cond(...) or Init(); after every call "
+                "Keyword, Operator, Expression, Valid (nil or not), Err (nil or not), CanNest, IsNesting, String; non-trivial = at least 2 calls",
+        "modelled": COMMON_MODELLED,
+        "assumptions": ["keyword arguments are strings, stringers, nil or other non-stringer values (a Stack/Condition passed as keyword is not generated)",
+                        "every per-call theorem is for an arbitrary state, hence for the state reached by any history"],
+    },
+    "C18": {
+        "lean": ["Stackage.Props.C18"],
+        "streams": [{"name": "opts", "quick": 3000, "thorough": 60000}],
+        "rule": "enumeration first: every sequence of {set, clear, toggle} x the 8 Stack options (then x the 4 options a Condition exposes) "
+                "up to length 2 (quick) / 3 (thorough); then random histories (1..12 calls, thorough 1..40) on Stacks of every kind and on "
+                "Conditions mixing tri-state setters (direct and through the deprecated aliases), SetFIFO, SetID/SetCategory, SetDelimiter "
+                "(string/rune/nil/foreign), SetSymbol, SetEncap (strings, pairs, clashing pairs, 1- and 3-element and empty slices, no "
+                "argument), SetAuxiliary, Set/UnsetLogLevel by name (any case, unknown names), LogLevel constant and raw int incl. 0, 65535, "
+                "out-of-range and negative; after every call the full dump (VerifDump: option word, FIFO, symbol, delimiter, encapsulation, "
+                "ID, category, level word, aux identity, content length) and every public getter are compared; non-trivial = at least 2 calls",
+        "modelled": COMMON_MODELLED + ["auxiliary maps by identity; id 0 = a map the library allocated itself",
+                                       "strings.ToUpper on level names: ASCII plus U+0131/U+017F (the only code points whose upper case is ASCII)"],
+        "assumptions": ["SetID(\"_random\"/\"_addr\") (generated IDs) is excluded: the generator never produces the two magic words",
+                        "the model follows the repaired SetEncap (F21: an empty []string is ignored)"],
+    },
+    "C19": {
+        "lean": ["Stackage.Props.C19"],
+        "streams": [{"name": "nilpat", "quick": 3000, "thorough": 200000}],
+        "rule": "stacks built from nil/non-nil patterns (values 1,2,3,.. in order so that order and identity are observable): every pattern of "
+                "length 0..5 (quick) / 0..12 (thorough) x max in {default,1,2,3,50} x the four negative/forward index option settings, then random "
+                "patterns of length 13..24 (quick) / ..40 (thorough) aimed at the boundaries (N = 2t+5, first gap around the limit, runs around the "
+                "limit, alternating, dense, sparse, none), max also 0/-1/4/7/12/MaxInt/MinInt, nesting depth 0..2 inside Stacks (native, alias, alias "
+                "with String, pointer; some read-only, some zero-valued) and Conditions; the real Defrag(max...) is called and Len, every element "
+                "and Err() of the whole tree are compared with the model (M) and with the filter specification (S); a spec mismatch is a known "
+                "finding iff the driver puts the input into a class of known_findings.json AND the implementation equals the model's prediction; "
+                "non-trivial = the top-level stack has a nil and at least 3 elements",
+        "modelled": COMMON_MODELLED + ["spat/tpat ([]int holding 0/1) as Bool lists; len(data) at iteration i as i-1 (one distinct key per iteration)",
+                                       "the mutex taken by implode is ignored (C10)"],
+        "assumptions": ["lengths < 2^62", "no Err recorded on the stacks beforehand (Defrag's Err clause is about its own report)",
+                        "one Go stack object is not nested at two places"],
+        "level_text": "Lean 4 theorems over the model of defrag/implode/verifyImplode for all stacks, scan limits and index options: the stated "
+                      "property is refuted (C19_counterexample) and replaced by what holds (termination, no-nil untouched, sub-sequence, exact success "
+                      "class, shape); single-stack level proved, the lifting to nested trees is checked by the correspondence run only; model tied to "
+                      "/repo by regenerated guards and a differential correspondence check (exhaustive over all patterns of length <= 12 in thorough)",
+        "explanation": "C19 as stated is false of the code (theorem C19_counterexample); the code is not repaired because TestDefrag_experimental_001 pins "
+                       "its result. Proved instead: termination/no panic, no-nil stacks untouched, values never reordered or invented, the exact success "
+                       "class DefragOK (iff), the shape of the result. Not proved: the lifting of the class to nested trees (checked by the correspondence run).",
+    },
+    "C20": {
+        "lean": ["Stackage.Props.C20"],
+        "streams": [{"name": "revealtrees", "quick": 4000, "thorough": 80000}],
+        "rule": "random trees, receiver at depth 0 and stacks down to depth 5, every kind (AND/OR/NOT/LIST/BASIC), parenthetical flags on stacks and "
+                "Conditions, chains of 1-4 single-element wrappers (mostly removable ones), Conditions holding stacks / Conditions / leaves (also as only "
+                "element, also read-only / no-nesting / with an error, which makes SetExpression refuse), empty stacks, nil elements, zero-valued "
+                "Stack / Condition elements, nil *Stack / *Condition elements, []any elements, alias forms a/as/p on stacks and Conditions, forward/negative index options, read-only "
+                "nested stacks, mutex on none / some / all nodes; the real Reveal() runs under a 3 s watchdog (timeout = DEADLOCK) with recover; the "
+                "resulting tree is read back through VerifDump (kinds, option bits, forms, leaves, keyword/operator) and compared with the heap "
+                "model's tree together with the order of mutex acquisitions (VerifHook); distinct = distinct tree text; non-trivial = the receiver "
+                "holds at least two nested Stack/Condition nodes",
+        "explanation": "Observation blocks: L leaves, NF normal form, KP kept (parenthetical / NOT) nodes, D depth did not grow, R reachable(before, after), "
+                       "T resulting tree, X lock order. The S line has the five specification blocks computed by Lean from the INPUT tree alone "
+                       "(leaves/nf/kept before, D 1, R 1); impl-vs-spec compares those five blocks (the implementation's are computed by the harness "
+                       "with Go ports of Spec/Unwrap.lean, used only to tell a specification failure from a model divergence); impl-vs-model compares "
+                       "all seven blocks, and the model's five specification blocks are computed by Lean (leaves, nf, kept, depth, the verified "
+                       "decision procedure `reachable`) on the model's tree, which the T block shows to be the implementation's tree.",
+        "modelled": COMMON_MODELLED + ["object identity of nested stacks as an explicit heap (node id -> slots / condition)",
+                                       "sync.Mutex as a non-re-entrant lock held for the duration of stack.reveal (lock/defer unlock)"],
+        "assumptions": ["no Go stack object occurs at two places of the input tree (generators never alias; the theorems only need acyclicity)",
+                        "elements are never non-nil pointers to the native Stack / Condition types (outside the value universe)",
+                        "nil *Stack / *Condition elements (they satisfy Interface) are part of the random stream since repair F31 "
+                        "(revealDescend skips them); VERIF_C20_NILPTR=0 leaves them out"],
     },
 }
 
@@ -155,19 +313,72 @@ def _c05(out):
     return re.sub(r"ne:[A-Za-z0-9?]+", "ne", out)
 
 
+def _c04(out):
+    # the model does not compute IsEqual yet: Q is compared on the implementation against the specification only
+    return re.sub(r" Qskip", " Qok", out) if "Qskip" in out else out
+
+
+def _c20_spec_blocks(s):
+    return " ; ".join(b for b in s.split(" ; ") if not (b == "X" or b == "T" or b.startswith("T ") or b.startswith("X ")))
+
+
+class _C20Spec(str):
+    """The S line of C20: it has no T (tree) and X (lock order) block, because the specification is computed from the input
+    alone. It equals an observation iff the observation's specification blocks (L, NF, KP, D, R) equal it. (Python consults
+    the str subclass first when a plain str is compared with it.)"""
+    def __eq__(self, other):
+        return _c20_spec_blocks(str(other)) == str.__str__(self)
+
+    def __ne__(self, other):
+        return not self.__eq__(other)
+
+    __hash__ = str.__hash__
+
+
+def _c20(out):
+    """impl-vs-spec: the five specification blocks; impl-vs-model: everything (tree and lock order included)."""
+    if out.startswith("L ") and " ; T " not in out and not out.endswith(" ; T"):
+        return _C20Spec(out)
+    return out
+
+
 PROJ = {
     "C05": _c05,
+    "C04": _c04,
+    "C20": _c20,
     "C01": _keep("ret", "L", "I", "F", "B", "E"),
     "C08": _keep("ret", "L", "I", "F", "B", "E", "c", "a", "u"),
     "C03": _c03,
     "C13": _keep("L", "I", "N", "G"),
     "C14": _keep("L", "I", "R"),
     "C15": _keep("ret", "L", "I"),
+    "C18": lambda out: out,   # everything the opts stream prints is a C18 observable
 }
 
 
 def projection(pid, stream):
     return PROJ.get(pid, lambda s: s)
+
+
+def extra_checks(run):
+    """property-specific steps beyond the case streams: returns [(name, detail, replay_text)] for violations"""
+    import subprocess, os
+    out = []
+    if run.pid == "C11" and run.harness:
+        root = os.path.dirname(os.path.dirname(os.path.abspath(__file__)))
+        exe = os.path.join(run.work, "harness-race")
+        env = dict(os.environ, GOFLAGS="-mod=mod", GOPROXY="off", GOSUMDB="off", GOTOOLCHAIN="local")
+        b = subprocess.run(["go", "build", "-race", "-modfile", os.path.join(run.work, "go.mod"), "-tags", "verif", "-o", exe, "."],
+                           cwd=os.path.join(root, "harness"), env=env, stdout=subprocess.PIPE, stderr=subprocess.STDOUT, text=True)
+        if b.returncode != 0:
+            run.notes.append("race build failed: " + b.stdout[-200:])
+            return out
+        n = "300" if run.tier == "quick" else "5000"
+        r = subprocess.run([exe, "parq", "-seed", str(run.seed), "-n", n], stdout=subprocess.PIPE, stderr=subprocess.PIPE, text=True, timeout=3000)
+        run.notes.append("parallel queries: " + (r.stdout.strip().split("\n") or [""])[-1])
+        if "DATA RACE" in r.stderr or r.returncode != 0:
+            out.append(("race", "data race or wrong answer while running queries from 16 goroutines", r.stdout[-3000:] + "\n" + r.stderr[-6000:]))
+    return out
 
 
 def in_scope(pid, stream, tags):
@@ -177,18 +388,110 @@ def in_scope(pid, stream, tags):
 
 
 def nontrivial(pid, payload):
+    if pid == "C20":
+        toks = payload.split(" ")
+        return sum(1 for t in toks if t in ("K", "C")) >= 3
     ops = payload.rsplit(" | ", 1)[-1].split(" ; ")
     kinds = {o.split(" ")[0] for o in ops if o}
     if pid == "C05":
         return not payload.endswith("| self") and " [ ]" not in payload.split(" | ")[0][:12]
     if pid == "C15":
         return " [ ]" not in payload.split(" | ")[0]     # non-empty source
-    if pid in ("C13", "C14"):
+    if pid == "C12":
+        return any(f in payload for f in (" a ", " as ", " p "))
+    if pid == "C07":
+        return any(len(o.split(" ")) >= 3 for o in ops)
+    if pid == "C02":
+        return payload.count(" ") >= 6
+    if pid == "C18":
+        return " | " in payload and len(ops) >= 2
+    if pid in ("C09", "C11", "C17"):
+        return True
+    if pid in ("C04", "C16"):
+        return payload.count("[") >= 2
+    if pid == "C19":
+        top = _c19_top(payload)
+        return "N" in top and len(top) >= 3
+    if pid in ("C13", "C14", "C06"):
         return len(ops) >= 2
     return len(ops) >= 3 and len(kinds) >= 2
 
 
+def _c19_top(payload):
+    """tokens of the top-level elements of a nilpat case (nested literals collapsed to one token)"""
+    toks = payload.split(" | ")[0].split()
+    out, depth = [], 0
+    for t in toks[4:]:
+        if t == "[":
+            depth += 1
+        elif t == "]":
+            depth -= 1
+            if depth < 0:
+                break
+        elif depth == 0 and t in ("K", "C", "Z"):
+            out.append(t + "*")
+        elif depth == 0 and t not in ("n", "a", "as", "p", "-", "c1", "6b") and "=" not in t:
+            out.append(t)
+    return out
+
+
+def _c19_distribution(cases):
+    d = {"length": {}, "max": {}, "index_options": {}, "nesting": {}, "nil_share": {}}
+    def inc(k, v):
+        d[k][v] = d[k].get(v, 0) + 1
+    for c in cases:
+        payload = c.split(" | ", 1)[1]
+        top = _c19_top(payload)
+        n = len(top)
+        inc("length", "0-5" if n <= 5 else "6-12" if n <= 12 else "13-24" if n <= 24 else "25+")
+        inc("max", payload.rsplit(" ", 1)[-1])
+        cfg = payload.split()[2]
+        o = 0
+        for kv in cfg.split(","):
+            if kv.startswith("o="):
+                o = int(kv[2:])
+        inc("index_options", {0: "none", 16: "neg", 32: "fwd", 48: "neg+fwd"}[o & 48])
+        lit = payload.split(" | ")[0]
+        inc("nesting", "cond+stack" if " C " in lit and lit.count(" K ") > lit.count(" C ") else "cond" if " C " in lit else "stack" if " K " in lit[2:] else "flat")
+        nn = top.count("N")
+        inc("nil_share", "none" if nn == 0 else "<1/3" if 3 * nn < n else "<2/3" if 3 * nn < 2 * n else ">=2/3")
+def _c20_distribution(cases):
+    d = {"nodes": {}, "depth": {}, "features": {}}
+    def bump(k, key):
+        d[k][key] = d[k].get(key, 0) + 1
+    for c in cases:
+        toks = c.split(" | ", 1)[-1].split(" ")
+        n = sum(1 for t in toks if t in ("K", "C"))
+        b = min(n // 5 * 5, 40)
+        bump("nodes", "%d-%d" % (b, b + 4))
+        depth, cur = 1, 1          # the receiver's own level (its elements are listed without brackets)
+        for t in toks:
+            if t == "[":
+                cur += 1
+                depth = max(depth, cur)
+            elif t == "]":
+                cur -= 1
+        bump("depth", str(depth))
+        text = " ".join(toks)
+        for name, pat in (("mutex", r"mtx=1"), ("alias stack", r"K (a|as|p) "), ("alias condition", r"C (a|as|p) "), ("NOT", r"K \S+ k=3"),
+                          ("condition holding a stack", r"C \S+ \S+ \S+ \S+ K "), ("stack whose only element is a condition", r"\[ C [^\[\]]* \]"),
+                          ("empty stack", r"\[ \]"), ("nil element", r" N "), ("zero Stack/Condition", r" [ZY] "),
+                          ("single-element chain >= 2", r"\[ K \S+ \S+ \[ K \S+ \S+ \[ K "), ("forward index option", r"o=(32|33|48|49)")):
+            if re.search(pat, text):
+                bump("features", name)
+        for t in toks:
+            m = re.fullmatch(r"(?:\S*,)?o=(\d+)(?:,\S*)?", t)
+            if m and int(m.group(1)) & 1:
+                bump("features", "parenthetical")
+                break
+    return d
+
+
 def distribution(pid, cases):
+    if pid == "C19":
+        return _c19_distribution(cases)
+    if pid == "C20":
+        return _c20_distribution(cases)
     d = {"ops": {}, "sizes": {}}
     for c in cases:
         ops = c.rsplit(" | ", 1)[-1].split(" ; ")
